@@ -233,3 +233,191 @@ Proof.
     + intros [Hq|Hq]; [subst q; exact Hp | exact Hq].
     + intros Hq. right. exact Hq.
 Qed.
+
+(* ------------------------------------------------------------------ *)
+(** * Restriction of a set to a list of arguments *)
+
+Definition restr (A S : list nat) : list nat := filter (fun a => memb a A) S.
+
+Lemma in_restr : forall A S a, In a (restr A S) <-> In a A /\ In a S.
+Proof. intros A S a. unfold restr. rewrite filter_In, memb_In. tauto. Qed.
+
+Lemma restr_incl_l : forall A S, incl (restr A S) A.
+Proof. intros A S a H. apply in_restr in H. tauto. Qed.
+
+Lemma restr_incl_r : forall A S, incl (restr A S) S.
+Proof. intros A S a H. apply in_restr in H. tauto. Qed.
+
+Lemma restr_mono : forall A S T, incl S T -> incl (restr A S) (restr A T).
+Proof.
+  intros A S T H a Ha. apply in_restr in Ha. apply in_restr.
+  split; [tauto | apply H; tauto].
+Qed.
+
+Lemma restr_seteq : forall A S T, seteq S T -> seteq (restr A S) (restr A T).
+Proof. intros A S T E a. rewrite !in_restr, (E a). reflexivity. Qed.
+
+Lemma restr_id : forall A S, incl S A -> seteq (restr A S) S.
+Proof.
+  intros A S H a. rewrite in_restr. split; [tauto|]. intros Ha. split; [apply H; exact Ha | exact Ha].
+Qed.
+
+Lemma restr_restr_sub : forall A B S, incl A B -> seteq (restr A (restr B S)) (restr A S).
+Proof.
+  intros A B S H a. rewrite !in_restr. split; [tauto|]. intros [Ha Hs].
+  split; [exact Ha|]. split; [apply H; exact Ha | exact Hs].
+Qed.
+
+Lemma seteq_incl_iff : forall S T, seteq S T <-> incl S T /\ incl T S.
+Proof.
+  intros S T. split.
+  - intros E. split; intros a Ha; apply (E a); exact Ha.
+  - intros [H1 H2] a. split; [apply H1 | apply H2].
+Qed.
+
+(* ------------------------------------------------------------------ *)
+(** * C. Decomposition over unrelated parts *)
+
+(* [P] is an isolated part of [U]: its attacks stay inside its arguments, they are attacks of [U],
+   and every attack of [U] touching an argument of [P] is an attack of [P]. *)
+Definition part (U P : af) : Prop :=
+  (forall a b, att P a b -> In a (args P) /\ In b (args P)) /\
+  (forall a b, att P a b -> att U a b) /\
+  (forall a b, att U a b -> In a (args P) \/ In b (args P) -> att P a b).
+
+Section Part.
+  Variables U P : af.
+  Hypothesis HP : part U P.
+
+  Let Hw : forall a b, att P a b -> In a (args P) /\ In b (args P) := proj1 HP.
+  Let Hup : forall a b, att P a b -> att U a b := proj1 (proj2 HP).
+  Let Hdown : forall a b, att U a b -> In a (args P) \/ In b (args P) -> att P a b :=
+    proj2 (proj2 HP).
+
+  Lemma cf_part : forall S, cf U S -> cf P (restr (args P) S).
+  Proof.
+    intros S H a b Ha Hb Hab. apply in_restr in Ha. apply in_restr in Hb.
+    apply (H a b); [tauto | tauto | apply Hup; exact Hab].
+  Qed.
+
+  Lemma defends_part : forall S a, In a (args P) ->
+    (defends U S a <-> defends P (restr (args P) S) a).
+  Proof.
+    intros S a Ha. split; intros H b Hb.
+    - destruct (H b (Hup b a Hb)) as [c [Hc Hcb]].
+      assert (Hcb' : att P c b).
+      { apply Hdown; [exact Hcb|]. right. exact (proj1 (Hw b a Hb)). }
+      exists c. split; [|exact Hcb']. apply in_restr. split; [|exact Hc].
+      exact (proj1 (Hw c b Hcb')).
+    - assert (Hb' : att P b a) by (apply Hdown; [exact Hb | right; exact Ha]).
+      destruct (H b Hb') as [c [Hc Hcb]]. apply in_restr in Hc.
+      exists c. split; [tauto | apply Hup; exact Hcb].
+  Qed.
+
+  Lemma in_range_part : forall S a, In a (args P) ->
+    (in_range U S a <-> in_range P (restr (args P) S) a).
+  Proof.
+    intros S a Ha. split.
+    - intros [H|[b [Hb Hba]]].
+      + left. apply in_restr. split; assumption.
+      + assert (Hba' : att P b a) by (apply Hdown; [exact Hba | right; exact Ha]).
+        right. exists b. split; [|exact Hba']. apply in_restr. split; [|exact Hb].
+        exact (proj1 (Hw b a Hba')).
+    - intros [H|[b [Hb Hba]]].
+      + left. apply in_restr in H. tauto.
+      + right. apply in_restr in Hb. exists b. split; [tauto | apply Hup; exact Hba].
+  Qed.
+End Part.
+
+(* ------------------------------------------------------------------ *)
+(** * Every admissible set extends to a preferred extension (finite, constructive) *)
+
+Lemma forallb_false_witness : forall (A : Type) (f : A -> bool) (l : list A),
+  forallb f l = false -> exists x, In x l /\ f x = false.
+Proof.
+  intros A f l. induction l as [|x r IH]; cbn [forallb]; intros H; [discriminate|].
+  destruct (f x) eqn:E.
+  - destruct (IH H) as [y [Hy Ey]]. exists y. split; [right; exact Hy | exact Ey].
+  - exists x. split; [left; reflexivity | exact E].
+Qed.
+
+Lemma existsb_false_all : forall (A : Type) (f : A -> bool) (l : list A),
+  existsb f l = false -> forall x, In x l -> f x = false.
+Proof.
+  intros A f l H x Hx. destruct (f x) eqn:E; [|reflexivity].
+  assert (Ht : existsb f l = true) by (apply existsb_exists; exists x; split; assumption).
+  congruence.
+Qed.
+
+Lemma canon_len_mono : forall l S S', incl S S' -> length (canon l S) <= length (canon l S').
+Proof.
+  intros l S S' Hi. unfold canon. induction l as [|x r IH]; cbn [filter]; [lia|].
+  destruct (memb x S) eqn:E1; destruct (memb x S') eqn:E2; cbn [length]; try lia.
+  exfalso. apply memb_In in E1. apply Hi in E1. apply memb_In in E1. congruence.
+Qed.
+
+Lemma canon_len_strict : forall l S S' a,
+  incl S S' -> In a l -> In a S' -> ~ In a S -> length (canon l S) < length (canon l S').
+Proof.
+  intros l S S' a Hi Hl Ha' Ha. induction l as [|x r IH]; [destruct Hl|].
+  pose proof (canon_len_mono r S S' Hi) as Hm. unfold canon in *. cbn [filter].
+  destruct Hl as [Hx|Hr].
+  - subst x. apply memb_false in Ha. apply memb_In in Ha'. rewrite Ha, Ha'. cbn [length]. lia.
+  - specialize (IH Hr).
+    destruct (memb x S) eqn:E1; destruct (memb x S') eqn:E2; cbn [length]; try lia.
+    exfalso. apply memb_In in E1. apply Hi in E1. apply memb_In in E1. congruence.
+Qed.
+
+Lemma canon_len_le : forall l S, length (canon l S) <= length l.
+Proof.
+  intros l S. unfold canon. induction l as [|x r IH]; cbn [filter length]; [lia|].
+  destruct (memb x S); cbn [length]; lia.
+Qed.
+
+Lemma adm_nil : forall F, adm F [].
+Proof.
+  intros F. split; [|split].
+  - intros a [].
+  - intros a b [].
+  - intros a [].
+Qed.
+
+Lemma pr_extends_fuel : forall n F S,
+  length (args F) - length (canon (args F) S) <= n -> adm F S ->
+  exists P, pr F P /\ incl S P.
+Proof.
+  induction n as [|n IH]; intros F S Hn Ha;
+  (destruct (existsb (fun S' => admb F S' && subsetb S S' && negb (subsetb S' S))
+                     (powerset (args F))) eqn:Ex;
+   [ apply existsb_exists in Ex; destruct Ex as [S' [HS' Hb]];
+     apply andb_true_iff in Hb; destruct Hb as [Hb Hns];
+     apply andb_true_iff in Hb; destruct Hb as [Hadm Hsub];
+     apply admb_adm in Hadm; apply subsetb_incl in Hsub;
+     apply negb_true_iff in Hns; apply forallb_false_witness in Hns;
+     destruct Hns as [a [HaS' HaS]]; apply memb_false in HaS;
+     pose proof (canon_len_strict (args F) S S' a Hsub
+                   (adm_incl F S' Hadm a HaS') HaS' HaS) as Hlt;
+     pose proof (canon_len_le (args F) S') as Hle
+   | exists S; split; [|apply incl_refl]; split; [exact Ha|];
+     intros S'' HS'' Hi;
+     pose proof (existsb_false_all _ _ _ Ex (canon (args F) S'')
+                   (canon_in_powerset (args F) S'')) as Hf;
+     pose proof (canon_seteq (args F) S'' (adm_incl F S'' HS'')) as Hce;
+     assert (H1 : admb F (canon (args F) S'') = true)
+       by (apply admb_adm; apply (adm_seteq F S''); [apply seteq_sym; exact Hce | exact HS'']);
+     assert (H2 : subsetb S (canon (args F) S'') = true)
+       by (apply subsetb_incl; intros a HaS; apply (Hce a); apply Hi; exact HaS);
+     cbv beta in Hf; rewrite H1, H2 in Hf; cbn [andb] in Hf; apply negb_false_iff in Hf;
+     apply subsetb_incl in Hf; intros a HaS''; apply Hf; apply (Hce a); exact HaS'' ]).
+  - exfalso. lia.
+  - destruct (IH F S') as [P [HP HiP]]; [lia | exact Hadm |].
+    exists P. split; [exact HP|]. intros b Hb. apply HiP. apply Hsub. exact Hb.
+Qed.
+
+Lemma pr_extends : forall F S, adm F S -> exists P, pr F P /\ incl S P.
+Proof. intros F S H. exact (pr_extends_fuel _ F S (le_n _) H). Qed.
+
+Lemma pr_exists : forall F, exists P, pr F P.
+Proof.
+  intros F. destruct (pr_extends F [] (adm_nil F)) as [P [HP _]]. exists P. exact HP.
+Qed.
